@@ -814,6 +814,12 @@ def replaceNonesWithNonsense(
                 if realType is type(None):
                     continue
 
+                # the entries may be of different numeric types: cast to their common type
+                # rather than to the type of the first one, which could truncate the others
+                present = [d for d in data if d is not None]
+                if any(type(d) is not realType for d in present):
+                    realType = np.array(present).dtype.type
+
                 defaultValue = NONE_MAP[realType]
                 break
         else:
